@@ -1,8 +1,8 @@
 """Render the MagicNumbers.tla item universe: one literal item per source line, per language."""
 from __future__ import annotations
 
-SPELL = {1: "7", 2: "37", 3: "4200", 4: "3.14", 5: "0x2A", 6: "1_000_000", 7: "1e6", 8: "100_i32", 9: "250", 10: "0x1f4"}
-NUM = {1: 7, 2: 37, 3: 4200, 4: 3.14, 5: 42, 6: 1000000, 7: 1000000.0, 8: 100, 9: 250, 10: 500}
+SPELL = {1: "7", 2: "37", 3: "4200", 4: "3.14", 5: "0x2A", 6: "1_000_000", 7: "1e6", 8: "100_i32", 9: "250", 10: "0x1f4", 11: "0xFF", 12: "2_000", 13: "4e2"}
+NUM = {1: 7, 2: 37, 3: 4200, 4: 3.14, 5: 42, 6: 1000000, 7: 1000000.0, 8: 100, 9: 250, 10: 500, 11: 255, 12: 2000, 13: 400.0}
 EXT = {"python": "py", "typescript": "ts", "rust": "rs"}
 
 
@@ -91,6 +91,11 @@ NONLIT = {
     "typescript": ["function nonlit(x: number): unknown[] {", "  const flag = true;", "  const other = false;", "  const s = \"abc123 37 4200\";", "  const value37 = x;", "  return [flag, other, s, value37];", "}"],
     "rust": ["fn nonlit(x: i64) -> i64 {", "    let flag = true;", "    let other = false;", "    let s = \"abc123 37 4200\";", "    let value37 = x;", "    if flag && !other && !s.is_empty() { value37 } else { x }", "}"],
 }
+
+
+LONE = {"python": "def scale(value):\n    return value * {s}\n",
+        "typescript": "export function scale(value: number): number {{\n  return value * {s};\n}}\n",
+        "rust": "fn scale(value: f64) -> f64 {{\n    value * ({s} as f64)\n}}\n"}
 
 
 def render(lang: str, items: list[tuple[str, int]]) -> tuple[str, dict[int, tuple[str, int]], set[int]]:
